@@ -13,19 +13,6 @@ open HugrVerif HugrVerif.Envelope
     `EnvelopePy` takes its fallback branch. -/
 theorem gen_wellformed : GenWF := by decide
 
-/-- The layout facts the header code relies on hold for the constants of envelope.py. -/
-theorem py_wf : WF py := by
-  refine ⟨by decide, by decide, by decide, by decide, by decide, ?_, by decide, by decide⟩
-  intro f g
-  cases f <;> cases g <;> decide
-
-/-- The magic number documented in the module docstring's table (`MAGIC_NUMBERS`, 8 bytes),
-    "HUGRiHJv". -/
-def docMagic : List UInt8 := [0x48, 0x55, 0x47, 0x52, 0x69, 0x48, 0x4a, 0x76]
-
-/-- `EnvelopeFormat(b)` succeeds exactly on the three documented codes. -/
-def knownCode (b : UInt8) : Prop := b = 1 ∨ b = 2 ∨ b = 63
-
 /-! ### Header -/
 
 /-- Decoding an encoded header (followed by any payload) returns it. -/
@@ -57,20 +44,6 @@ theorem toBytes_layout (h : Header) :
 
 /-- The three format codes, as documented (`MODULE = 1`, `MODULE_WITH_EXTS = 2`, `JSON = 63` = '?'). -/
 theorem format_codes : py.code .module = 1 ∧ py.code .moduleWithExts = 2 ∧ py.code .json = 63 := by decide
-
-theorem knownCode_iff (b : UInt8) : knownCode b ↔ ∃ f, py.code f = b := by
-  unfold knownCode
-  obtain ⟨h1, h2, h3⟩ := format_codes
-  constructor
-  · rintro (rfl | rfl | rfl)
-    · exact ⟨_, h1⟩
-    · exact ⟨_, h2⟩
-    · exact ⟨_, h3⟩
-  · rintro ⟨f, rfl⟩
-    cases f
-    · exact .inl h1
-    · exact .inr (.inl h2)
-    · exact .inr (.inr h3)
 
 /-- **Rejection, for all byte strings**: the decoder raises iff the input is shorter than a header,
     or its first eight bytes are not the magic number, or byte 8 is not a known format code. -/
@@ -292,18 +265,30 @@ local instance {α : Type} [DecidableEq α] : DecidableEq (Except Err α)
   | .ok _, .error _ => isFalse (fun h => by cases h)
   | .error _, .ok _ => isFalse (fun h => by cases h)
 
-theorem toy_hz : ∀ x l y, toyEnv.compress x l = .ok y → toyEnv.decompress y = .ok x := by
-  intro x l y h
-  simp only [toyEnv, Except.ok.injEq] at h
-  subst h
-  rfl
+-- the hypotheses of the round-trip theorems are satisfiable, and the theorems apply to a
+-- compressed (level 0) and a text envelope
+example : ∃ js, toyEnv.dumpJson [0x7b, 0x7d] = .ok js ∧
+    readEnvelope py toyEnv ([0x48, 0x55, 0x47, 0x52, 0x69, 0x48, 0x4a, 0x76, 63, 0x41] ++ [0, 0xB5, 0x7b, 0x7d]) =
+      toyEnv.loadJson (toyEnv.utf8enc js) :=
+  envelope_roundtrip toyEnv toy_hz [0x7b, 0x7d] { format := .json, zstd := some 0 } rfl _ (by decide)
+example : ∃ js, toyEnv.dumpJson [0x7b, 0x7d] = .ok js ∧
+    readEnvelopeStr py toyEnv [0x48, 0x55, 0x47, 0x52, 0x69, 0x48, 0x4a, 0x76, 63, 0x40, 0x7b, 0x7d] =
+      toyEnv.loadJson (toyEnv.utf8enc js) :=
+  envelope_str_roundtrip toyEnv toy_hz toy_hu [0x7b, 0x7d] { format := .json, zstd := none } _ (by decide)
+example : readEnvelope py toyEnv ([0x48, 0x55, 0x47, 0x52, 0x69, 0x48, 0x4a, 0x76, 2, 0x41] ++ [3, 0xB5, 0x7b, 0x7d]) =
+    .error .valueError :=
+  model_formats_not_decodable toyEnv toy_hz [0x7b, 0x7d] { format := .moduleWithExts, zstd := some 3 }
+    (by decide) _ (by decide)
 
-theorem toy_hu : ∀ b s, toyEnv.utf8dec b = some s → toyEnv.utf8enc s = b := by
-  intro b s h
-  simp only [toyEnv] at h
-  split at h
-  · cases h; rfl
-  · cases h
+-- the remaining conditional theorems apply to concrete envelopes
+example := envelope_header toyEnv [0x7b, 0x7d] { format := .module, zstd := some 3 }
+  ([0x48, 0x55, 0x47, 0x52, 0x69, 0x48, 0x4a, 0x76, 1, 0x41] ++ [3, 0xB5, 0x7b, 0x7d]) (by decide)
+example := str_error_class toyEnv [0x7b, 0x7d] { format := .json, zstd := some 3 }
+  ([0x48, 0x55, 0x47, 0x52, 0x69, 0x48, 0x4a, 0x76, 63, 0x41] ++ [3, 0xB5, 0x7b, 0x7d]) (by decide) .valueError (by decide)
+example := pkg_default_roundtrip toyEnv toy_hz [0x7b, 0x7d]
+  [0x48, 0x55, 0x47, 0x52, 0x69, 0x48, 0x4a, 0x76, 63, 0x40, 0x7b, 0x7d] (by decide)
+example := str_ok_is_decoded_bytes toyEnv [0x7b, 0x7d] { format := .json, zstd := none }
+  [0x48, 0x55, 0x47, 0x52, 0x69, 0x48, 0x4a, 0x76, 63, 0x40, 0x7b, 0x7d] (by decide)
 
 example : makeEnvelope py toyEnv [0x7b, 0x7d] { format := .json, zstd := some 0 } =
     .ok ([0x48, 0x55, 0x47, 0x52, 0x69, 0x48, 0x4a, 0x76, 63, 0x41] ++ [0, 0xB5, 0x7b, 0x7d]) := by decide
